@@ -858,6 +858,11 @@ class GCodeBuilder(GCodeCore):
         args = { **params, "X": move.x, "Y": move.y, "Z": move.z }
         statement = self._get_statement(mode, args, comment)
 
+        # Validate the probe target before marking the axes involved
+        # as unknown, otherwise bounds would never apply to a probe
+
+        self.state._user_bounds.validate("axes", target_axes)
+
         # Set position to unknown for any axis involved
 
         target_axes = target_axes.mask(move.x, move.y, move.z)
